@@ -522,6 +522,53 @@ def rule_reap(program, ctx, prop=P, rid="C06.reap"):
                              "(link not up yet) is raised after the commit and the local broadcast, and the client is told OK=false for a stored event", text="def notify(...) :: sync"))
 
 
+def rule_schema(program, ctx, prop=P, rid="C06.schema"):
+    ctx.rule(
+        rid,
+        "a refused row is never mistaken for a duplicate: DBStorage inserts with `INSERT OR IGNORE` (rowcount 0 = the id is already stored = OK false 'duplicate'), so the "
+        "`events` table carries no constraint besides the id primary key - a CHECK constraint (kind / created_at range), a NOT NULL or UNIQUE added to the table definition or by "
+        "an alembic revision makes SQLite skip a *new* valid event silently: it is answered 'duplicate: exists' and stored nowhere, and pre_save has already deleted the "
+        "versions it would have replaced",
+        floor=1,
+    )
+    n = 0
+    for m in program.modules.values():
+        if not m.name.startswith("nostr_relay"):
+            continue
+        for c in ast.walk(m.tree):
+            if not isinstance(c, ast.Call):
+                continue
+            nm = call_name(c).split(".")[-1]
+            if nm in ("CheckConstraint", "create_check_constraint", "UniqueConstraint", "create_unique_constraint"):
+                txt = ast.unparse(c)
+                on_events = False
+                for a in ancestors(c):
+                    if isinstance(a, ast.Call) and call_name(a).split(".")[-1] in ("Table", "create_table") and a.args and isinstance(a.args[0], ast.Constant):
+                        on_events = a.args[0].value == "events"
+                        break
+                    if isinstance(a, ast.Call) and isinstance(a.func, ast.Attribute) and a.func.attr == "append_constraint":
+                        on_events = "Event" in ast.unparse(a.func.value) or "events" in ast.unparse(a.func.value)
+                        break
+                    if isinstance(a, (ast.With, ast.AsyncWith)) and any(isinstance(i.context_expr, ast.Call) and call_name(i.context_expr).endswith("batch_alter_table") and i.context_expr.args
+                                                                      and isinstance(i.context_expr.args[0], ast.Constant) and i.context_expr.args[0].value == "events" for i in a.items):
+                        on_events = True
+                        break
+                if not on_events and nm.startswith("create_") and any(isinstance(x, ast.Constant) and x.value == "events" for x in c.args[:2]):
+                    on_events = True
+                par = getattr(c, "_parent", None)
+                if not on_events and isinstance(par, ast.Assign) and isinstance(par.targets[0], ast.Name):
+                    # bound to a local first, then listed in the table definition
+                    nm_ = par.targets[0].id
+                    for t in ast.walk(m.tree):
+                        if isinstance(t, ast.Call) and call_name(t).split(".")[-1] in ("Table", "create_table") and t.args and isinstance(t.args[0], ast.Constant) and t.args[0].value == "events" \
+                                and any(isinstance(a_, ast.Name) and a_.id == nm_ for a_ in t.args):
+                            on_events = True
+                if on_events:
+                    n += 1
+                    ctx.bad(finding_at(prop, rid, c, f"`{txt[:70]}` adds a constraint to the events table: with INSERT OR IGNORE a violating (new, valid) event is skipped silently and reported as a duplicate"))
+    ctx.ok(rid, program.module("nostr_relay.storage").tree, "events table: primary key only") if not n else None
+
+
 def run(program, ctx):
     from ..lib import rule_awaited
 
@@ -555,6 +602,9 @@ def run(program, ctx):
 
     # LMDB answers OK=true before the writer thread runs: a key derivation that can raise for an admitted event loses it after the acknowledgement
     c01.rule_tagindex(program, ctx, prop=P, rid="C06.tagindex")
+    rule_schema(program, ctx)
+    # OK false must mean nothing was kept: that needs the driver to open transactions at all
+    c07.rule_isolation(program, ctx, prop=P, rid="C06.isolation")
     from . import c19 as _c19
 
     # add_event waits for the previous round of notify tasks: a bounded per-connection queue parks them behind a client that does not read, and no later EVENT is answered
